@@ -645,6 +645,21 @@ func perLint(pkgs []*packages.Package) {
 		}
 		footprint(r, roots)
 		r.LoopStatuses = loopStatuses(sa, exec)
+		// lints that read the signature or the whole-object bytes are reviewed by hand (C09): pin the text of every
+		// function of a lint package they reach, so that an edit re-opens the review
+		for _, f := range r.Reads {
+			if f == "Certificate.Raw" || f == "Certificate.Signature" || f == "RevocationList.Raw" || f == "RevocationList.Signature" || f == "Response.Signature" || f == "Response.Raw" {
+				var parts []string
+				for _, n := range r.Reach {
+					if ff := facts.Funcs[n]; ff != nil && ff.fn != nil && strings.HasPrefix(ff.Pkg, modPath+"/lints/") {
+						parts = append(parts, n+"="+declText(ff.fn))
+					}
+				}
+				sort.Strings(parts)
+				r.SensitiveBodyHash = sha(strings.Join(parts, "\n"))
+				break
+			}
+		}
 	}
 }
 
